@@ -336,7 +336,10 @@ def run_property(prop, tier, seed):
         harnesses = [h for h in harnesses if re.search(only, h)]
     witnesses = cfg.get("thorough_witnesses", cfg.get("witnesses", [])) if tier == "thorough" else cfg.get("witnesses", [])
     jobs = int(os.environ.get("VERIF_JOBS", str(cfg.get("jobs", 16))))
-    results, build_ok, log = kani.run(harnesses + witnesses, jobs=jobs, harness_timeout=cfg.get("timeout", 900))
+    # the quick tier is meant to stay inside a 900 s budget: no single harness may take longer than 780 s
+    # there (a harness that needs more on a changed tree is reported as undecided, exit 2)
+    htimeout = cfg.get("timeout", 900) if tier == "thorough" else min(cfg.get("timeout", 900), 780)
+    results, build_ok, log = kani.run(harnesses + witnesses, jobs=jobs, harness_timeout=htimeout)
     if not build_ok or all(r.status == "undecided" and "no result file" in r.reason for r in results.values()):
         print("CHECK-BROKEN property=%s: the harness crate did not build against /repo's current tree" % prop)
         print(log)
